@@ -55,6 +55,25 @@ FailedCtors(r) ==
   {[f |-> r.vp[j].f,
     root |-> (j = 1 /\ ~(r.v = "missing" /\ r.mk # {}))] : j \in DOMAIN r.vp}
 
+\* What stays of the picture (pruning): only the constructors on the failure path keep their
+\* cluster, with all their results; a kept constructor loses every plain dependency edge whose
+\* key is a result of a pruned constructor; only the value groups on the failure path keep their
+\* node, linked to their members in kept constructors, and only they keep consumer edges.
+Kept(r)         == {r.vp[j].f : j \in DOMAIN r.vp} \cap RegSet
+PrunedKeys(r)   == UNION {SingleKeysOf(f) : f \in RegSet \ Kept(r)}
+FailedGroups(r) == {r.vp[j].k : j \in {x \in DOMAIN r.vp : r.vp[x].g}}
+ErrClusters(r) ==
+  {[f |-> f, rs |-> ResultNodes(f),
+    ps |-> SelectSeq(ParamEdges(f), LAMBDA e : e.k \notin PrunedKeys(r)),
+    gps |-> SelectSeq(GroupEdges(f), LAMBDA k : k \in FailedGroups(r))] : f \in Kept(r)}
+ErrGroups(r) ==
+  LET members(k) == Len(FlattenSeq([j \in 1..Len(reg) |->
+                        IF reg[j] \in Kept(r)
+                        THEN SelectSeq(ResultNodes(reg[j]), LAMBDA x : x = k /\ k \in GroupKeysOfFn(reg[j]))
+                        ELSE <<>>]))
+  IN  {[k |-> k, n |-> members(k)] : k \in FailedGroups(r)}
+
 PictureErr(r) == [can |-> Can(r), inclaim |-> InClaim(r), root |-> RootCause(r),
-                  trans |-> Transitive(r), ctors |-> FailedCtors(r)]
+                  trans |-> Transitive(r), ctors |-> FailedCtors(r),
+                  clusters |-> ErrClusters(r), groups |-> ErrGroups(r)]
 =============================================================================
